@@ -93,6 +93,36 @@ def concurrent_writer_cases(rng, n):
     return out
 
 
+def writer_race_cases(rng, n):
+    """no parking: B writes the moment A's type byte is on the transport; A's body is large (compression / pacing takes a while)"""
+    out = []
+    for k in range(n):
+        size = rng.choice([300 * 1024, 1 << 20, 262144, 262143, 70000])
+        a = {"ty": rng.choice([0x20, 0x22, 0x01]), "compress": k % 3 != 2, "body": "", "fill": [rng.randrange(256), size], "rnd": True, "rate": 0}
+        b = rng.choice([{"ty": 3, "compress": False, "body": "", "rate": 0}, {"ty": 0x21, "compress": False, "body": "0011", "rate": 0},
+                        {"ty": 0x20, "compress": True, "body": "aa" * 40, "rate": 0}])
+        out.append({"mode": "cw", "pkts": [a, b], "cuts": [], "park": -1, "big": True})
+    return out
+
+
+def resend_cases(rng, n):
+    """the caller writes ONE packet value several times with different compression choices (re-send, broadcast, relay)"""
+    out = []
+    for _ in range(n):
+        p = rand_pkt(rng, 300)
+        while p["ty"] & 0x3F == 3 or "cmd" in p:
+            p = rand_pkt(rng, 300)
+        seq = []
+        for i in range(rng.choice([2, 3, 4])):
+            q = dict(p, compress=(i % 2 == 0) if rng.random() < 0.8 else rng.random() < 0.5)
+            if i:
+                q["reuse"] = True
+            seq.append(q)
+        seq.append(rand_pkt(rng, 40))
+        out.append({"mode": "pk", "pkts": seq, "cuts": rng.choice([[], [1] * 60, [3, 1, 4, 1, 5]])})
+    return out
+
+
 def duplex_cases(rng, n):
     """full-duplex use of one processor: WritePacket(A) and the ReadPackets of B1.. on the same StreamProcessor, one direction
     parked at a transport call while the other runs (compressed packets on both sides: they use the scratch buffers)"""
@@ -283,12 +313,13 @@ def run(ctx, only_cases=None):
         cases += ws_cases(ctx.rng, 120 if thorough else 15)
         cases += concurrent_writer_cases(ctx.rng, 200 if thorough else 24)
         cases += duplex_cases(ctx.rng, 300 if thorough else 40)
+        cases += resend_cases(ctx.rng, 200 if thorough else 30)
     outs = vlib.run_harness(binary, cases, timeout=900)
     wires = [o["wire"] for c, o in zip(cases, outs) if c["mode"] in ("pk", "ws") and o.get("wire")][:: (2 if thorough else 6)]
     raw = raw_mutations(ctx, wires, 12 if thorough else 6) if only_cases is None else []
     outs += vlib.run_harness(binary, raw, timeout=900) if raw else []
     cases += raw
-    big = (big_cases(ctx, thorough) + flagged_cases(ctx.rng, 200 if thorough else 30)) if only_cases is None else []
+    big = (big_cases(ctx, thorough) + flagged_cases(ctx.rng, 200 if thorough else 30) + writer_race_cases(ctx.rng, 60 if thorough else 9)) if only_cases is None else []
     bouts = vlib.run_harness(binary, big, timeout=900) if big else []
 
     # (iii) the property predicate evaluated on the implementation's own outputs
